@@ -60,7 +60,8 @@ RULE = ("argument forms: every integer option (size, num, num_visible / num_hidd
         "and generate_hilbert_space as outcome classes; (e) random data files (N >= 1, n >= 1: one-row and one-column files are ordinary cases "
         "since F16; one 60 000-row file in the thorough tier; basis "
         "alphabets, many-digit and float32-midpoint targets, comment/blank lines, tabs, CRLF, one-row / one-column / empty / ragged / "
-        "unparsable files) written to a temp dir and read back through load_data / load_data_DM; (f) extract_refbasis_samples on "
+        "unparsable files) written to a temp dir and read back through load_data / load_data_DM (paths positionally, by the documented keywords, "
+        "only the files given, or relative to the working directory); (f) extract_refbasis_samples on "
         "random bases patterns (none / all / some all-Z rows, multi-letter tokens, duplicate sample rows, wrong shapes). "
         "non-trivial: space n>=2; file case with N>=2 and n>=2 rows/columns and a decorated or many-digit file; extract case with some "
         "but not all rows all-Z; distinct by hash of the case")
@@ -1174,6 +1175,9 @@ def expect_load(case):
     return {"items": items}
 
 
+LOAD_HOW = ("pos", "pos", "kw", "given", "trim", "rel")
+
+
 def load_case(ctx, case, report=None):
     """write the file texts, read them back through the real loader, compare with model + independent expectation
     (report: the replayable description to attach to failures instead of `case` — used for the very large generated file, whose
@@ -1190,14 +1194,37 @@ def load_case(ctx, case, report=None):
             with open(p, "w", newline="", encoding="ascii") as fh:
                 fh.write(text)
             paths[key] = p
+    # call form (case key "how"; audit2-4 C19 residue 2): all five / four paths positionally (default), every path by its documented keyword,
+    # only the files that exist (first positionally, the others by keyword; trailing defaults omitted), or paths RELATIVE to the caller's
+    # working directory
+    how = case.get("how", "pos")
+    ctx.count(f"load:call_form={how}")
+    if case["fn"] == "load_data":
+        fn, names, keys = qdata.load_data, ("tr_samples_path", "tr_psi_path", "tr_bases_path", "bases_path"), ("samples", "psi", "tr_bases", "bases")
+    else:
+        fn, names, keys = qdata.load_data_DM, ("tr_samples_path", "tr_mtx_real_path", "tr_mtx_imag_path", "tr_bases_path", "bases_path"), ("samples", "re", "im", "tr_bases", "bases")
+    vals = [paths.get(k) for k in keys]
+    old_cwd = None
     try:
-        if case["fn"] == "load_data":
-            res = qdata.load_data(paths["samples"], paths.get("psi"), paths.get("tr_bases"), paths.get("bases"))
+        if how == "rel":
+            old_cwd = os.getcwd()
+            os.chdir(d)
+            vals = [None if v is None else os.path.basename(v) for v in vals]
+        if how == "kw":
+            res = fn(**dict(zip(names, vals)))
+        elif how == "given":
+            res = fn(vals[0], **{n: v for n, v in zip(names[1:], vals[1:]) if v is not None})
+        elif how == "trim":
+            last = max(i for i, v in enumerate(vals) if v is not None)
+            res = fn(*vals[: last + 1])
         else:
-            res = qdata.load_data_DM(paths["samples"], paths.get("re"), paths.get("im"), paths.get("tr_bases"), paths.get("bases"))
+            res = fn(*vals)
         impl = {"items": canon_items(res)}
     except Exception as e:  # noqa: BLE001
         impl = {"error": errname(e)}
+    finally:
+        if old_cwd is not None:
+            os.chdir(old_cwd)
     want = expect_load(case)
     rc = case if report is None else report
 
@@ -1739,6 +1766,7 @@ def run_all(ctx, thorough, scale=1, env=False):
     for _ in range((2000 if thorough else (40 if env else 150)) * scale):
         c = gen_load_case(rng)
         c["kind"] = "load"
+        c["how"] = rng.choice(LOAD_HOW)
         load_case(ctx, c)
     # fixed double-rounding witness: via-double rounding gives 1.0, direct decimal->float32 rounding would give 1.0000001
     load_case(ctx, {"kind": "load", "fn": "load_data", "tags": ["double-rounding-witness"], "nontrivial": True, "logical": None,
